@@ -639,6 +639,47 @@ def random_history_case(seed, k):
     return fn
 
 
+def cmd_input_case(pr):
+    """a cmd_stdout input of the target itself: unchanged text = skip, changed text = run, failing command = run"""
+    pr.write("ver.txt", "1")
+    pr.write("zinoma.yml", yml({"t": _t([{"cmd_stdout": "cat ver.txt"}], None)}))
+    _run_ok(pr, "t")
+    pr.clear_log()
+    r = pr.run("t")
+    if _ran(pr):
+        return {"property": "C03", "expected": "the command prints the recorded text: skipped", "observed": "script ran", "zinoma": r.brief()}
+    pr.edit("ver.txt", "2")
+    pr.clear_log()
+    r = pr.run("t")
+    if not _ran(pr):
+        return {"property": "C02", "expected": "the cmd_stdout input prints another text: the script runs", "observed": "skipped", "zinoma": r.brief()}
+    return None
+
+
+def xoutput_filtered_case(pr):
+    """the producer's output carries an extension filter: only matching files are inputs of the consumer"""
+    pr.write("psrc/p.txt", "p1")
+    prod = _t([{"paths": ["psrc"]}], [{"paths": ["gen"], "extensions": ["txt"]}], name="prod", body="mkdir -p gen && cat psrc/p.txt > gen/a.txt && [ -f gen/blob.bin ] || echo b > gen/blob.bin")
+    cons = _t(["prod.output"], [{"paths": ["final.txt"]}], name="cons", body="cat gen/a.txt > final.txt")
+    pr.write("zinoma.yml", yml({"prod": prod, "cons": cons}))
+    _run_ok(pr, "cons")
+    pr.clear_log()
+    pr.run("cons")
+    if pr.log():
+        return {"property": "C03", "expected": "untouched tree: nothing runs", "observed": "log %s" % pr.log()}
+    pr.edit("gen/blob.bin", "other-binary")
+    pr.clear_log()
+    r = pr.run("cons")
+    if pr.log():
+        return {"property": ["C13", "C15"], "expected": "gen/blob.bin does not match prod's output filter [txt]: it is an input of nobody, nothing runs", "observed": "log %s" % pr.log(), "zinoma": r.brief()}
+    pr.edit("psrc/p.txt", "p2-longer")
+    pr.clear_log()
+    r = pr.run("cons")
+    if "s cons" not in pr.log():
+        return {"property": "C13", "expected": "prod rewrites gen/a.txt, which matches its output filter: the consumer re-runs", "observed": "log %s" % pr.log(), "zinoma": r.brief()}
+    return None
+
+
 def cases(seed, tier="quick"):
     C = lambda n, fn, what: Case("incr", n, fn, what)
     out = [
@@ -661,6 +702,8 @@ def cases(seed, tier="quick"):
         C("ext-only-empty", skip_then("edit src/a.txt (extensions: [''])", lambda p: p.edit("src/a.txt", "a2-longer"), True, ["C15", "C02"], ext=[""], why=" (no filter)"), "only empty entries = no filter"),
         C("workdir-inside", skip_then("edit src/.zinoma/x", lambda p: p.edit("src/.zinoma/x", "2-longer"), False, "C15", extra={"src/.zinoma/x": "1"}, why=" (inside a directory named .zinoma)"), ".zinoma directory below the listed path is pruned"),
         C("corrupt-each-byte", corrupt_each_byte_case, "every single-byte corruption of the record + a changed output"),
+        C("cmd-input", cmd_input_case, "cmd_stdout input of the target itself"),
+        C("xoutput-filtered", xoutput_filtered_case, "X.output with an extension filter"),
         C("no-input", no_input_case, "no input: always executed"),
         C("missing-path", missing_path_case, "missing path contributes nothing"),
         C("symlink-file", symlink_case, "link to a regular file inside the listed directory"),
